@@ -186,3 +186,21 @@ func MutateDoc(t *rapid.T, d *xdoc.Doc, o DocOpts) *xdoc.Doc {
 	}
 	return nd
 }
+
+// Shape varies the document shape: mostly as given, sometimes deep and narrow
+// (7 levels, fan-out 2), sometimes wide (up to 13 siblings on two levels, i.e.
+// two-digit sibling positions). Returns the label of the shape drawn.
+func Shape(t *rapid.T, o *DocOpts) string {
+	switch rapid.IntRange(0, 9).Draw(t, "shape") {
+	case 0:
+		o.MaxDepth, o.MaxFan = 7, 2
+		return "doc:deep"
+	case 1:
+		o.WideFan = 13
+		if o.MaxAttrs > 1 {
+			o.MaxAttrs = 1
+		}
+		return "doc:wide"
+	}
+	return "doc:regular"
+}
